@@ -7,8 +7,8 @@ use crate::{
     flp::{
         gadgets::{Mul, ParallelSumGadget},
         types::{
-            decode_range_checked_int, decode_result_vec, encode_range_checked_int,
-            parallel_sum_range_checks,
+            check_parallel_sum_lengths, decode_range_checked_int, decode_result_vec,
+            encode_range_checked_int, parallel_sum_range_checks,
         },
         Flp, FlpError, Gadget, Type,
     },
@@ -86,11 +86,14 @@ impl<F: NttFriendlyFieldElement, S: ParallelSumGadget<F, Mul>> L1BoundSum<F, S> 
         // Number of bits needed to represent each value.
         let bits = max_value.checked_ilog2().unwrap() as usize + 1;
 
-        let measurement_len_in_bits = bits.checked_mul(measurement_len + 1).ok_or_else(|| {
-            FlpError::InvalidParameter(
-                "bits*(measurement_len+1) overflows addressable memory".into(),
-            )
-        })?;
+        let measurement_len_in_bits = measurement_len
+            .checked_add(1)
+            .and_then(|len| bits.checked_mul(len))
+            .ok_or_else(|| {
+                FlpError::InvalidParameter(
+                    "bits*(measurement_len+1) overflows addressable memory".into(),
+                )
+            })?;
 
         let last_weight = max_value - ((F::Integer::one() << (bits - 1)) - F::Integer::one());
         let last_weight_field = F::from(last_weight);
@@ -99,6 +102,7 @@ impl<F: NttFriendlyFieldElement, S: ParallelSumGadget<F, Mul>> L1BoundSum<F, S> 
         if measurement_len_in_bits % chunk_length != 0 {
             gadget_calls += 1;
         }
+        check_parallel_sum_lengths(chunk_length, gadget_calls)?;
 
         Ok(Self {
             measurement_len,
